@@ -210,6 +210,10 @@ def check(case, ctx):
             if first_score is None and leftover is not None:
                 # stopped at the very first loop step: first score is the best score seen
                 first_score = float(np.max(leftover[1]))
+            relative_ok = case["thr"]["type"] == "absolute" or (first_score is not None and np.isfinite(first_score) and first_score > 0)
+            if not relative_ok:
+                ctx.skip("relative threshold: first score not positive")
+                ls, leftover = [], None
             for (i, s) in ls:
                 v = s if case["thr"]["type"] == "absolute" else s / first_score
                 ctx.true("kept-score>=threshold", v >= thr_val,
